@@ -125,3 +125,20 @@ package types
 //@   ensures [height] g != nil ==> result.GroupHeight != nil && *result.GroupHeight == g.GroupHeight
 //@   ensures [refs]   g != nil ==> ref(result.Id) == ref(g.Id) && ref(result.PubKey) == ref(g.PubKey) && ref(result.Signature) == ref(g.Signature) && ref(result.Members) == ref(g.Members)
 //@   modifies nothing
+
+// ---------------------------------------------------------------------------------------------
+// The refund list of a block context (C20): after AddRefundInfo the list has an entry for the account.
+//@ type RefundSlice = []*RefundInfo
+//@ type RefundMapT = map[uint64]RefundInfoList
+//@ spec macro fn schedHas(l RefundSlice, id Bytes) bool = exists i int :: 0 <= i && i < len(l) && l[i] != nil && bytes(l[i].Id) == id
+
+//@ func RefundInfoList.AddRefundInfo
+//@   option trusted
+//@   requires refundInfoList != nil
+//@   ensures schedHas(refundInfoList.List, old(bytes(id)))
+//@   modifies refundInfoList.List, heap("math/big.Int"), heap("middleware/types.RefundInfo")
+
+//@ func GetRefundInfo
+//@   option trusted
+//@   ensures istype(context["refund"], RefundMapT) ==> result == unbox(context["refund"], RefundMapT)
+//@   modifies nothing
